@@ -172,6 +172,23 @@ class SArr(PyObj):
                          lambda idx: base.isnan((idx[1], idx[0])))
                 return t
             return Model(lambda c: mk(), 'ndarray.transpose') if name == 'transpose' else mk()
+        if name in ('ravel', 'flatten'):
+            def ravel(c, *a):
+                base = self.snapshot()
+                if len(base.shape_) == 1:
+                    return base
+                if len(base.shape_) != 2:
+                    raise Undecided("ravel of rank %d" % len(base.shape_))
+                nc = base.shape_[1]
+                flat = SArr(self.name + ".ravel", (base.shape_[0] * nc,),
+                            lambda idx: base.at((idx[0] // nc, idx[0] % nc)), lambda idx: base.isnan((idx[0] // nc, idx[0] % nc)))
+                if getattr(self, 'mgrid', None) is not None:
+                    flat.mgrid_flat = self.mgrid
+                    gid, los, shp, ax = self.mgrid
+                    # value as a function of the 2-d cell (r, c) of the grid box -- avoids div/mod on the flat index
+                    flat.g2 = (gid, (lambda r, c, ax=ax: r if ax == 0 else c), (lambda r, c: False))
+                return flat
+            return Model(ravel, 'ndarray.ravel')
         if name == 'shape':
             return self.shape_
         if name == 'ndim':
@@ -252,7 +269,43 @@ class SArr(PyObj):
                 raise Undecided("array index kind %s" % type(k).__name__)
         return axes
 
+    def _grid_key(self, key):
+        """key = (x, y) raveled coordinate arrays of one np.mgrid (optionally selected by the same np.where): returns
+        (los, shp, cond) describing the box of cells they enumerate, else None"""
+        if not (isinstance(key, tuple) and len(key) == 2 and len(self.shape_) == 2):
+            return None
+        ks = []
+        for k in key:
+            sel = None
+            if isinstance(k, Selected):
+                sel, k = k.sel, k.base
+            g = getattr(k, 'mgrid_flat', None)
+            if g is None:
+                return None
+            ks.append((g, sel))
+        (g0, s0), (g1, s1) = ks
+        if g0[0] != g1[0] or g0[3] != 0 or g1[3] != 1 or (s0 is not s1):
+            return None
+        return g0[1], g0[2], s0
+
     def getitem_(self, ctx, key):
+        if isinstance(key, tuple) and len(key) == 1 and isinstance(key[0], WhereSel):
+            key = key[0]
+        if isinstance(key, WhereSel):
+            return Selected(self, key)
+        gk = self._grid_key(key)
+        if gk is not None:
+            los, shp, sel = gk
+            if sel is not None:
+                raise Undecided("gather through an np.where selection")
+            base = self.snapshot()        # advanced indexing copies
+            nc = shp[1]
+            ga = SArr(self.name + "[grid]", (shp[0] * nc,),
+                      lambda idx: base.at((los[0] + idx[0] // nc, los[1] + idx[0] % nc)),
+                      lambda idx: base.isnan((los[0] + idx[0] // nc, los[1] + idx[0] % nc)))
+            gid = key[0].mgrid_flat[0]
+            ga.g2 = (gid, (lambda rr, cc: base.at((rr, cc))), (lambda rr, cc: base.isnan((rr, cc))))
+            return ga
         axes = self._axes(ctx, key)
         if any(isinstance(a, tuple) for a in axes):
             raise Undecided("boolean-mask selection (result length is data dependent)")
@@ -289,6 +342,43 @@ class SArr(PyObj):
         raise Undecided("iteration over an array of symbolic length")
 
     def setitem_(self, ctx, key, value):
+        gk = self._grid_key(key)
+        if gk is not None:
+            # scatter over the (distinct) cells of an mgrid box: cell (i, j) <- value[(i-lo0)*ncols + (j-lo1)]
+            los, shp, sel = gk
+            nc = shp[1]
+            ctx.oblige("safe", "grid_index_in_range.L%d" % ctx.cur_line,
+                       And(los[0] >= 0, los[1] >= 0, los[0] + shp[0] <= self.shape_[0], los[1] + shp[1] <= self.shape_[1]))
+            src = value.snapshot() if isinstance(value, SArr) else None
+            isn = isinstance(value, NaNType)
+            if src is not None and sel is None:
+                ctx.oblige("safe", "grid_value_length_matches.L%d" % ctx.cur_line, src.shape_[0] == shp[0] * nc)
+            flat = lambda idx: (idx[0] - los[0]) * nc + (idx[1] - los[1])
+            gid = None
+            for kk in key:
+                base_k = kk.base if isinstance(kk, Selected) else kk
+                gid = getattr(base_k, 'mgrid_flat', (None,))[0]
+            sg2 = getattr(value, 'g2', None) if isinstance(value, SArr) else None
+            if sg2 is not None and sg2[0] != gid:
+                sg2 = None
+            cg2 = getattr(sel.cond, 'g2', None) if sel is not None else None
+            if cg2 is not None and cg2[0] != gid:
+                cg2 = None
+            inbox = lambda idx: And(idx[0] >= los[0], idx[0] < los[0] + shp[0], idx[1] >= los[1], idx[1] < los[1] + shp[1])
+            if sel is None:
+                cond = lambda idx: inbox(idx)
+            elif cg2 is not None:
+                cond = lambda idx: And(inbox(idx), cg2[1](idx[0], idx[1]))
+            else:
+                cond = lambda idx: And(inbox(idx), sel.cond.at((flat(idx),)))
+            if src is not None and sel is not None:
+                raise Undecided("array scattered through an np.where selection")
+            if src is not None and sg2 is not None:
+                self._push_write(cond, lambda idx: sg2[1](idx[0], idx[1]), lambda idx: sg2[2](idx[0], idx[1]))
+            else:
+                self._push_write(cond, (lambda idx: src.at((flat(idx),))) if src is not None else (lambda idx: 0 if isn else value),
+                                 (lambda idx: src.isnan((flat(idx),))) if src is not None else (lambda idx: isn))
+            return
         if isinstance(key, SArr) and len(key.shape_) == len(self.shape_):
             # boolean mask assignment a[mask] = scalar
             ctx.oblige("safe", "mask_shape_matches.L%d" % ctx.cur_line,
@@ -380,7 +470,11 @@ class SArr(PyObj):
 
     def map_(self, ctx, f):
         base = self.snapshot()
-        return SArr(uid("map"), self.shape_, lambda idx: f(base.at(idx)), lambda idx: base.isnan(idx))
+        r = SArr(uid("map"), self.shape_, lambda idx: f(base.at(idx)), lambda idx: base.isnan(idx))
+        g2 = getattr(self, 'g2', None)
+        if g2 is not None:
+            r.g2 = (g2[0], (lambda rr, cc: f(g2[1](rr, cc))), g2[2])
+        return r
 
     def binop_(self, ctx, op, other, swapped):
         import operator
@@ -434,10 +528,50 @@ class SArr(PyObj):
             res = SArr(uid(name), self.shape_, g)
         else:
             res = SArr(uid(name), self.shape_, g, nf)
+        # grid-cell form of the result (only when every array operand lives on the same mgrid box)
+        ga = getattr(self, 'g2', None)
+        if ga is not None:
+            if isinstance(other, SArr):
+                gb = getattr(other, 'g2', None)
+                if gb is not None and gb[0] == ga[0]:
+                    h = (lambda rr, cc: f(gb[1](rr, cc), ga[1](rr, cc))) if swapped else (lambda rr, cc: f(ga[1](rr, cc), gb[1](rr, cc)))
+                    hn = lambda rr, cc: Or(ga[2](rr, cc), gb[2](rr, cc))
+                    res.g2 = (ga[0], h, hn)
+            elif not isinstance(other, NaNType):
+                h = (lambda rr, cc: f(other, ga[1](rr, cc))) if swapped else (lambda rr, cc: f(ga[1](rr, cc), other))
+                res.g2 = (ga[0], h, ga[2])
+            if cmpop and getattr(res, 'g2', None) is not None:
+                h0, hn0 = res.g2[1], res.g2[2]
+                res.g2 = (res.g2[0], ((lambda rr, cc: Or(h0(rr, cc), hn0(rr, cc))) if name == 'NotEq'
+                                     else (lambda rr, cc: And(h0(rr, cc), Not(hn0(rr, cc))))), (lambda rr, cc: False))
         if inplace:
             self.elem, self.blank0, self.writes = res.elem, res.blank0, []
+            if getattr(res, 'g2', None) is not None:
+                self.g2 = res.g2
+            elif hasattr(self, 'g2'):
+                del self.g2
             return self
         return res
+
+
+class WhereSel(PyObj):
+    """np.where(cond1d)[0]: the (data dependent) list of selected positions, kept as the condition itself"""
+
+    def __init__(self, cond):
+        self.cond = cond
+
+
+class Selected(PyObj):
+    """base[np.where(cond)]"""
+
+    def __init__(self, base, sel):
+        self.base, self.sel = base, sel
+
+
+def np_where1(ctx, cond):
+    if isinstance(cond, SArr) and len(cond.shape_) == 1:
+        return (WhereSel(cond.snapshot()),)
+    raise Undecided("np.where on an unmodelled argument")
 
 
 class ZipArr(PyObj):
@@ -501,8 +635,11 @@ class MGrid(PyObj):
             shp.append(ite(n > 0, n, 0) if isinstance(n, Sym) else max(n, 0))
             los.append(lo)
         out = []
+        gid = uid("grid")
         for ax in range(len(key)):
-            out.append(SArr(uid("mgrid%d_" % ax), tuple(shp), (lambda ax: lambda idx: los[ax] + idx[ax])(ax)))
+            a = SArr(uid("mgrid%d_" % ax), tuple(shp), (lambda ax: lambda idx: los[ax] + idx[ax])(ax))
+            a.mgrid = (gid, tuple(los), tuple(shp), ax)
+            out.append(a)
         return tuple(out) if len(out) > 1 else out[0]
 
 
